@@ -165,6 +165,17 @@ Definition keyed (h : heap) (ks : list loc) : res (list (Z * loc)) :=
 Definition sorted_ts (h : heap) (ks : list loc) : res (list loc) :=
   bind (keyed h ks) (fun kl => Ok (map snd (sort_by fst kl))).
 
+(* sorted(events) without a key compares elements with Event.__lt__ (timestamp <): the same
+   stable sort.  The only difference is the exception for a non-Event element: comparing it
+   raises TypeError (as soon as there are two elements to compare), where reading
+   .timestamp raises AttributeError; a single element is never compared, and the code
+   that follows (`.sort(key=...)`, `event.data = {}`) raises AttributeError on it. *)
+Definition sorted_lt (h : heap) (ks : list loc) : res (list loc) :=
+  match sorted_ts h ks with
+  | Err AttributeError => if Nat.leb 2 (length ks) then Err TypeError else Err AttributeError
+  | r => r
+  end.
+
 Fixpoint filter_res {X} (f : X -> res bool) (l : list X) : res (list X) :=
   match l with
   | [] => Ok []
@@ -356,7 +367,7 @@ Fixpoint sweep_h (fuel : nat) (h : heap) (l1 l2 : list loc) : res (heap * list l
    which the generator sorts again in place (they are its own) *)
 Definition filter_period_intersect_h (h : heap) (L1 L2 : loc) : res (heap * loc) :=
   bind (list_elems h L1) (fun ks1 => bind (list_elems h L2) (fun ks2 =>
-  bind (sorted_ts h ks1) (fun s1 => bind (sorted_ts h ks2) (fun s2 =>
+  bind (sorted_lt h ks1) (fun s1 => bind (sorted_lt h ks2) (fun s2 =>
   bind (sorted_ts h s1) (fun s1' => bind (sorted_ts h s2) (fun s2' =>
   bind (sweep_h (length s1' + length s2') h s1' s2') (fun r =>
   Ok (new_list (fst r) (snd r))))))))).
@@ -392,7 +403,7 @@ Fixpoint clear_all (h : heap) (ks : list loc) : res heap :=
    the caller's own Event objects, and their data reference is overwritten *)
 Definition period_union_h (h : heap) (L1 L2 : loc) : res (heap * loc) :=
   bind (list_elems h L1) (fun ks1 => bind (list_elems h L2) (fun ks2 =>
-  bind (sorted_ts h (ks1 ++ ks2)) (fun evs =>
+  bind (sorted_lt h (ks1 ++ ks2)) (fun evs =>
   bind (match evs with
         | [] => Ok (h, [])
         | first :: rest => union_loop_h h [first] rest
